@@ -1,10 +1,31 @@
 (* Props/C07.v — Market life cycle is monotone and resolution is final.
-   PARTIAL: rejection of updates/resolutions on resolved markets and the per-market frame are proved; the
-   full monotonicity over histories is decided per run by the Go monitor (previous vs current market,
-   book and bet records after every operation) + correspondence. *)
+   Over histories of the model (Proofs/Mono.v): between ANY two points of a history a market keeps its id, creator and
+   outcome list, its book status only moves forward, and once it is resolved its whole record (status, winners,
+   resolution time, start/end) never changes again (C07_resolution_final, C07_identity); in every state updates and
+   second resolutions of a resolved market are rejected; a transaction naming one market leaves the others untouched.
+   "Winner is one of the market's outcomes" and "at least two distinct outcomes" are checked at the handler
+   (market_resolve / market_add guards, transcribed) and per run by the monitor. *)
 From Coq Require Import ZArith Bool List.
-From Sge Require Import Lib.Dec Model.Types Model.Chain Proofs.MarketFacts.
+From Sge Require Import Lib.Dec Model.Types Model.Orderbook Model.Mint Model.Chain Proofs.MarketFacts Proofs.Custody Proofs.Mono.
 Open Scope Z_scope.
+
+Theorem C07_resolution_final : forall bk supply P vault MP t0 sw sd,
+  bget bk POOL = 0 -> bget bk HOUSEFEE = 0 -> bget bk BETFEE = 0 ->
+  forall ops1 ops2 m x, Forall valid_op ops1 -> Forall valid_op ops2 ->
+  get_ms (run (init bk supply P vault MP t0 sw sd) ops1) m = Some x -> status_res (k_status (ms_mkt x)) ->
+  exists x', get_ms (run (init bk supply P vault MP t0 sw sd) (ops1 ++ ops2)) m = Some x' /\ ms_mkt x' = ms_mkt x.
+Proof. exact resolution_is_final. Qed.
+Print Assumptions C07_resolution_final.
+
+Theorem C07_identity : forall bk supply P vault MP t0 sw sd,
+  bget bk POOL = 0 -> bget bk HOUSEFEE = 0 -> bget bk BETFEE = 0 ->
+  forall ops1 ops2 m x, Forall valid_op ops1 -> Forall valid_op ops2 ->
+  get_ms (run (init bk supply P vault MP t0 sw sd) ops1) m = Some x ->
+  exists x', get_ms (run (init bk supply P vault MP t0 sw sd) (ops1 ++ ops2)) m = Some x' /\
+    k_uid (ms_mkt x') = k_uid (ms_mkt x) /\ k_creator (ms_mkt x') = k_creator (ms_mkt x) /\ k_odds (ms_mkt x') = k_odds (ms_mkt x) /\
+    bk_status (ms_book x) <= bk_status (ms_book x').
+Proof. exact market_identity_is_fixed. Qed.
+Print Assumptions C07_identity.
 
 Theorem C07_no_update_after_resolution : forall s tk uid st en status x,
   get_ms s uid = Some x -> resolved (ms_mkt x) = true -> market_update s tk uid st en status = None.
